@@ -321,7 +321,11 @@ def tripleOK (timex : Str) (start stop : Option Str) : Bool :=
                   | some d1, some d2 => den = 1 ∧ (d2.y : Int) - d1.y = n ∧ d1.m = d2.m ∧ d1.d = d2.d
                   | _, _ => false)
                | u => secs * den = (n * unitSeconds u : Nat))
-            | none, _ => true            -- `PXD`, `P1Y2M`: not definite, nothing demanded
+            | none, _ =>
+              -- not a single `P<n><U>`: an open amount written with X (`PXD`) or a calendar compound made of digits and
+              -- unit letters (`P1Y2M`) is not definite — nothing demanded; anything else between two DEFINITE points
+              -- (a sign as in `P-4D`, a stray word) is not a duration: the triple is inconsistent
+              p.contains 88 || (p.head? = some 80 && p.length ≥ 3 && (p.drop 1).all fun c => isDigit c || c = 46 || (65 ≤ c && c ≤ 90))
             | _, none => false
         endsOK && durOK
       | _, _ => true   -- not definite: nothing demanded
